@@ -186,10 +186,34 @@ def run_property(prop, tier="quick", workers=None, extra=None):
     else:
         with cf.ProcessPoolExecutor(max_workers=min(workers, len(jobs))) as ex:
             results = list(ex.map(run_task, jobs))
-    return finish(prop, tier, seed, results, t0, extra=extra)
+    fin = run_finite(prop)
+    extra = dict(extra or {})
+    if fin is not None:
+        extra["finite_conditions"] = {
+            "evaluated": len(fin),
+            "holding": sum(1 for f in fin if f[1]),
+            "decided_by": "exhaustive evaluation of the live tables (not SMT; not counted in obligations/discharged)",
+            "failed": [f"{n}: {w}" for n, ok, w in fin if not ok][:20],
+        }
+    return finish(prop, tier, seed, results, t0, extra=extra, finite=fin)
 
 
-def finish(prop, tier, seed, results, t0, error=None, extra=None):
+def run_finite(prop):
+    import contracts
+
+    out = None
+    for m in getattr(contracts, "MODULES", []):
+        mod = importlib.import_module(m)
+        for fn in getattr(mod, "FINITE", {}).get(prop, []):
+            out = out or []
+            try:
+                out.extend(fn())
+            except Exception as e:  # pylint: disable=broad-except
+                out.append((fn.__name__, False, f"finite check crashed: {type(e).__name__}: {e}"))
+    return out
+
+
+def finish(prop, tier, seed, results, t0, error=None, extra=None, finite=None):
     from . import replay as RP
 
     known = load_known_findings()
@@ -267,12 +291,22 @@ def finish(prop, tier, seed, results, t0, error=None, extra=None):
         seen_kf.add(kf["id"])
         lines.append(f"KNOWN-FINDING: property={prop} {kf['what']}")
     replay_paths = []
+    seen_names = set()
     for tname, o in violations:
+        if o["name"] in seen_names:
+            continue  # one line per named obligation; further counter-models are other paths of the same clause
+        seen_names.add(o["name"])
         path, reproduced = RP.write_replay(prop, tname, o)
         replay_paths.append(path)
         suffix = "" if reproduced else " no-failing-input-found"
         lines.append(f"VIOLATION property={prop} replay={path} obligation={o['name']}{suffix}")
         code = EXIT_VIOLATION
+    for n, ok, w in finite or []:
+        if not ok:
+            rec = {"name": f"{prop}.finite.{n}", "kind": "finite", "backend": "exhaustive-evaluation", "result": "sat", "time": 0.0, "meta": {"witness": w}, "model": {"witness": w}, "goal": n}
+            path, _ = RP.write_replay(prop, "finite", rec)
+            lines.append(f"VIOLATION property={prop} replay={path} obligation={rec['name']} witness={w}")
+            code = EXIT_VIOLATION
     if error:
         errors.append([prop, error])
     if errors:
@@ -316,7 +350,7 @@ def finish(prop, tier, seed, results, t0, error=None, extra=None):
         },
         "assumptions": assumptions_for(prop),
         "wall_s": round(wall, 3),
-        "violations": len(violations),
+        "violations": len(violations) + sum(1 for f in (finite or []) if not f[1]),
     }
     if extra:
         ev["coverage"].update(extra)
